@@ -212,6 +212,7 @@ def run(idx: ProgramIndex, rep: Report, tier: str):
         "C03-12": "a value planted into an object's memo (add_to_cache) is stored under the key its reader uses: as many key arguments as the @cached reader takes",
         "C03-11": "evaluation-mode caches read by the prediction path do not keep an autograd graph under the default settings.detach_test_caches(True) (or clear themselves when back-propagated through): a backward pass through one prediction leaves the next one differentiable",
         "C03-13": "no object stores the value of a gpytorch setting in its constructor: settings are read at the call they govern (a value frozen at construction ignores every later with-block, and keeps the value of a block that has ended)",
+        "C03-14": "no memo entry that a gradient-carrying reader uses (kl_divergence, the prediction path) is filled under torch.no_grad(): a graph-free value left in the memo makes every later evaluation-mode reader return a result without gradient, until a training-mode call clears the memo",
         "C03-10": "a value-changing setting read while the model's own modules (kernels, means, likelihoods) are evaluated reaches every prediction cache: the strategy keys or re-validates its caches by it",
     }
     for k, v in rules.items():
@@ -231,6 +232,7 @@ def run(idx: ProgramIndex, rep: Report, tier: str):
     caches_survive_backward(idx, rep)
     settings_read_at_call_time(idx, rep)
     memo_keys_agree(idx, rep)
+    memos_filled_without_graph(idx, rep)
     rep.assume("regulariser/precision settings (variational_cholesky_jitter, cholesky_jitter, _linalg_dtype_cholesky) are not changed between two evaluation-mode calls on the same model: gpytorch caches Cholesky factors computed with them by design")
     rep.assume("settings read only inside linear_operator (CG vs Cholesky, Lanczos rank) select between algorithms for the same quantity (the 'iterative paths at tight tolerance' caveat of C01)")
     rep.assume("direct parameter edits while staying in eval mode are outside the documented invalidation points (excluded by the property)")
@@ -1750,3 +1752,76 @@ def settings_read_at_call_time(idx: ProgramIndex, rep: Report):
         raise AnalysisError("C03-13: positive control not matched (a constructor that stores a setting value)")
     rep.add("C03-13", "gpytorch:<constructors that store a setting value>", "gpytorch/", True, "%d constructors inspected" % n, {"constructors": n}, trivial=True)
     rep.floor("C03-13", "constructors inspected", n, 100)
+
+
+# ---- C03-14 --------------------------------------------------------------------------------------------------------
+def _no_grad_bodies(fn: ast.AST) -> List[ast.With]:
+    return [w for w in ast.walk(fn) if isinstance(w, ast.With) and any(isinstance(i.context_expr, ast.Call) and (chain(i.context_expr.func) or "").endswith("no_grad") for i in w.items)]
+
+
+def memos_filled_without_graph(idx: ProgramIndex, rep: Report):
+    """A `with torch.no_grad():` block in a method of a class with memoised members: every `self.X` read inside the block, followed
+    through the members of the concrete class it resolves to (3 levels), that lands on a @cached member fills that member's memo
+    entry with a graph-free value if the entry is empty.  That is harmless when the only readers of the member sit inside such
+    blocks themselves; it is a history dependence when another method of the class reads the same member outside of no_grad
+    (kl_divergence, forward): in evaluation mode nothing clears the memo, so that reader gets the graph-free value from then on."""
+    n = 0
+    owners = 0
+    for base in sorted(idx.package_classes(), key=lambda c: (c.module.name, c.qualname)):
+        for mname, m in sorted(base.methods.items()):
+            blocks = _no_grad_bodies(m.node)
+            if not blocks or not m.params:
+                continue
+            concretes = [c for c in [base] + list(idx.subclasses(base)) if c.lookup(mname) is m]
+            if not any(_cached_member_names(c) for c in concretes):
+                continue
+            owners += 1
+            for cc in sorted(concretes, key=lambda c: (c.module.name, c.qualname)):
+                cached_members = _cached_member_names(cc)
+                if not cached_members:
+                    continue
+                # a block that ends by clearing the memo leaves nothing behind
+                def cleared_after(w: ast.With) -> bool:
+                    clears = [x.lineno for st in w.body for x in ast.walk(st) if _is_clear_call(x)]
+                    reads = [x.lineno for st in w.body for x in ast.walk(st) if isinstance(x, ast.Attribute) and chain(x.value) == m.params[0] and isinstance(x.ctx, ast.Load) and x.attr in cached_members]
+                    direct = [st for st in w.body if any(_is_clear_call(x) for x in ast.walk(st)) and not isinstance(st, (ast.If, ast.For, ast.While, ast.Try))]
+                    return bool(direct) and bool(clears) and max(clears) > max(reads or [0])
+                live = [w for w in blocks if not cleared_after(w)]
+                in_block = {id(x) for w in live for st in w.body for x in ast.walk(st)}
+                # members entered from inside the block
+                filled: Dict[str, List[str]] = {}
+                seen: Set[str] = set()
+                work = []
+                for x in ast.walk(m.node):
+                    if id(x) in in_block and isinstance(x, ast.Attribute) and chain(x.value) == m.params[0] and isinstance(x.ctx, ast.Load):
+                        work.append((x.attr, [mname], 0))
+                while work:
+                    attr, via, depth = work.pop()
+                    f = cc.lookup(attr)
+                    if f is None or attr in seen:
+                        continue
+                    seen.add(attr)
+                    if attr in cached_members:
+                        filled[attr] = via
+                    if depth >= 3 or not f.params:
+                        continue
+                    for x in ast.walk(f.node):
+                        if isinstance(x, ast.Attribute) and chain(x.value) == f.params[0] and isinstance(x.ctx, ast.Load):
+                            work.append((x.attr, via + [attr], depth + 1))
+                # readers outside of every no_grad block and outside the members entered from one
+                for attr, via in sorted(filled.items()):
+                    readers = []
+                    for oname, om in sorted(cc.all_methods().items()):
+                        if not om.params or (oname in seen and oname != mname):
+                            continue
+                        ng = {id(x) for w in _no_grad_bodies(om.node) for st in w.body for x in ast.walk(st)}
+                        if any(isinstance(x, ast.Attribute) and x.attr == attr and chain(x.value) == om.params[0] and isinstance(x.ctx, ast.Load) and id(x) not in ng for x in ast.walk(om.node)):
+                            readers.append(oname)
+                    n += 1
+                    f = cc.lookup(attr)
+                    cname, _ig = cache_name_of(f)
+                    rep.add("C03-14", "%s:%s.%s[fills '%s' under no_grad]" % (cc.module.name, cc.qualname, mname, cname), m.where, not readers,
+                            "the memoised member `%s` (entered through %s) is read by no method outside of no_grad blocks" % (attr, " -> ".join(via)) if not readers else
+                            "inside `with torch.no_grad()` %s reads self.%s through %s: if the memo entry '%s' is empty it is filled with a graph-free value, and %s read%s the same entry outside of no_grad - in evaluation mode nothing clears it, so after this call their results carry no gradient w.r.t. what the entry was computed from (until a training-mode call)" % (mname, attr, " -> ".join(via), cname, ", ".join(readers[:4]), "s" if len(readers) == 1 else ""), {"readers": readers, "via": via})
+    rep.floor("C03-14", "methods with a no_grad block in classes with memoised members", owners, 1)
+    rep.floor("C03-14", "memo entries reachable from a no_grad block", n, 2)
